@@ -8,7 +8,7 @@ THEOREMS = ["C04_code_conforms", "C04_tasks_are_zip", "C04_emitted_exactly_once"
 
 def special_shapes(rng, i):
     """shapes the random generator reaches rarely: port-less process, FromStr longer than the buffer, long chains, wide fan-out, single-port fan-in"""
-    kind = i % 6
+    kind = i % 7
     buf = rng.choice([1, 2, 3])
     sp = t3.Spec(maxtasks=rng.randint(1, 4), bufsize=buf)
     L = buf + rng.randint(0, 3)
@@ -35,6 +35,16 @@ def special_shapes(rng, i):
         b = sp.proc(t3.Proc("right", kind="cattok", ins=[("a", [(s, "out")])], outs=[("o", "{i:a}.right")]))
         sp.proc(t3.Proc("extra", kind="cat", ins=[("a", [(s, "out")])], outs=[("o", "{i:a}.extra")]))
         sp.proc(t3.Proc("join", kind="cat", ins=[("x", [(a, "o")]), ("y", [(b, "o")])], outs=[("o", "{i:x}.joined")]))
+    elif kind == 6:    # a sub-stream: every item sent into the adapter reaches the joining task, which runs once
+        L2 = rng.choice([1, 2, buf + 1, buf + 4])
+        paths = ["m%d.txt" % j for j in range(L2)]
+        for p in paths:
+            sp.files[p] = p + "\n"
+        s = sp.src("src", paths)
+        pre = sp.proc(t3.Proc("pre", kind="cattok", ins=[("a", [(s, "out")])], outs=[("o", "{i:a}.pre")], sleep=rng.choice([None, "sleep 0.02"])))
+        j = sp.s2s("s2s", pre, "o")
+        sp.proc(t3.Proc("joiner", kind="cattok", ins=[("a", [(j, "substream")])], outs=[("o", "joined.txt")], join={"a": rng.choice([" ", ","])}))
+        sp.proc(t3.Proc("beside", kind="cat", ins=[("a", [(pre, "o")])], outs=[("o", "{i:a}.beside")]))
     elif kind == 5:    # independent multi-slot processes competing for a pool that partial allocations could exhaust
         sp = t3.Spec(maxtasks=rng.choice([2, 3, 4]), bufsize=buf)
         c = rng.randint(2, sp.max)
@@ -86,7 +96,7 @@ def run(rep, tier, seed):
     t3.report_t3(rep, MODULE, proved, results, "T3 workflows vs WfModel")
     rep.cov["evaluations"] = len(results)
     rep.cov["distinct_nontrivial"] = len({r["spec"] for r in results if r["ntasks"] >= 2})
-    rep.cov["rule"] = "random acyclic workflows (1-2 file sources, optional parameter source / FromStr, 1-5 processes with 1-2 in-ports, 1-2 outputs, SetOut patterns or default names) and special shapes (port-less process, FromStr and chains longer than the buffer, diamonds with fan-out, single-port fan-in, independent multi-slot processes), SCIPIPE_BUFSIZE in {1,2,3,128}, maxConcurrentTasks 1-4, CoresPerTask 1..max in 40% of the runs, GOMAXPROCS in {default,1,2}, seeded delays at the hook points in half of the runs; each run on the real library, compared with the Coq reference evaluator: exit status, exact file set and bytes, multiset of executed task keys; non-trivial = at least two executed tasks"
+    rep.cov["rule"] = "random acyclic workflows (1-2 file sources, optional parameter source / FromStr, 1-5 processes with 1-2 in-ports, 1-2 outputs, SetOut patterns or default names) and special shapes (port-less process, FromStr and chains longer than the buffer, diamonds with fan-out, single-port fan-in, independent multi-slot processes, a sub-stream joined by one task), SCIPIPE_BUFSIZE in {1,2,3,128}, maxConcurrentTasks 1-4, CoresPerTask 1..max in 40% of the runs, GOMAXPROCS in {default,1,2}, seeded delays at the hook points in half of the runs; each run on the real library, compared with the Coq reference evaluator: exit status, exact file set and bytes, multiset of executed task keys; non-trivial = at least two executed tasks"
     rep.cov["samples"] = [results[0]["spec"], results[1]["spec"]]
     rep.notes["input_distribution"] = {"runs": len(results), "tasks_executed_total": sum(r["ntasks"] for r in results),
                                        "with_delays": sum(1 for r in results if r["yield"]), "bufsize_hist": {str(b): sum(1 for r in results if r["bufsize"] == b) for b in (1, 2, 3, 128)},
